@@ -291,6 +291,11 @@ def _main(prop, tier, seed, meta, tmp, a, t0):
     print(f"[{prop}] engine P: {n_proved}/{n_ob} obligations discharged over {len(fns)} functions"
           f"; engine B: {B.get('evaluations', 0)} cases ({B.get('distinct_nontrivial', 0)} "
           f"distinct non-trivial); {wall}s")
+    regress = [u for u in undecided if u.get("was_proved_in_baseline")]
+    p_viol = [v for v in fresh if v.get("engine") == "P"]
+    if regress or p_viol:
+        print(f"  engine P: {len(p_viol)} obligation(s) violated, {len(regress)} further obligation(s) "
+              f"proved in the baseline are not discharged on this tree")
     for u in undecided[:10]:
         print(f"  undecided: {u['id']} ({u['status']})")
     for f in unsupported:
